@@ -104,9 +104,22 @@ func (e *Eval) compile(node ast.Node) error {
 			keys = append(keys, k)
 		}
 
-		// sort them
+		// sort them - keys that print alike (1 and "1") are ordered
+		// by their kind, and then by their value, so that the code we
+		// emit never depends upon the order the map was walked in.
 		sort.Slice(keys, func(i, j int) bool {
-			return keys[i].String() < keys[j].String()
+			if keys[i].String() != keys[j].String() {
+				return keys[i].String() < keys[j].String()
+			}
+			ti, tj := fmt.Sprintf("%T", keys[i]), fmt.Sprintf("%T", keys[j])
+			if ti != tj {
+				return ti < tj
+			}
+			vi, vj := node.Pairs[keys[i]], node.Pairs[keys[j]]
+			if vi.String() != vj.String() {
+				return vi.String() < vj.String()
+			}
+			return fmt.Sprintf("%T", vi) < fmt.Sprintf("%T", vj)
 		})
 
 		// for each key + value compile them
